@@ -372,6 +372,12 @@ def reqSafe : Bool → List RStep → Bool
   | d, .build :: r => !d && reqSafe true r
   | _, .respond :: _ => true
 
+/-- statements of `ExecuteClaim` (precompile `executeClaim`): look the pending claim up, delete it from the pending
+store, run its handler — in source order (regenerated: `Gen.C04.executeClaim_steps`) -/
+inductive XStep where
+  | lookup | delete | handle
+  deriving DecidableEq, Repr
+
 /-! ### `OutgoingTxBatchExecuted`: which other batches are cancelled; the external contract's acceptance rule -/
 
 inductive Cmp where
